@@ -295,6 +295,18 @@ def build(scene, key_seed=0, extra_objects=None, extra_constraints=None, apply=T
     # ---- static materials --------------------------------------------------------------------
     for i, m in enumerate(scene.get("materials", [])):
         name = m.get("name", f"mat{i}")
+        if m.get("center"):
+            # placed by the public place_at_center helper (physical-coordinate snapping, may be an exact tie)
+            o = fdtdx.UniformMaterialObject(
+                partial_grid_shape=tuple(int(x) for x in m["size"]),
+                material=_mat(fdtdx, m["mat"]),
+                placement_order=int(m.get("order", 0)),
+                name=name,
+            )
+            objs.append(o)
+            cons.append(o.place_at_center(volume))
+            names["materials"].append(name)
+            continue
         o = fdtdx.UniformMaterialObject(
             partial_grid_shape=_grid_shape(m["lo"], m["hi"]),
             material=_mat(fdtdx, m["mat"]),
@@ -303,6 +315,22 @@ def build(scene, key_seed=0, extra_objects=None, extra_constraints=None, apply=T
         )
         objs.append(o)
         cons += _box_constraints(o, m["lo"], m["hi"])
+        names["materials"].append(name)
+
+    # ---- multi-material shapes (sphere / cylinder) -----------------------------------------------
+    for i, m in enumerate(scene.get("shapes", [])):
+        name = m.get("name", f"shape{i}")
+        mats = {k: _mat(fdtdx, v) for k, v in m["materials"].items()}
+        sp = scene["grid"].get("spacing", 50e-9)
+        if m["kind"] == "sphere":
+            o = fdtdx.Sphere(radius=float(m["radius_cells"]) * sp, materials=mats, material_name=m["material_name"], placement_order=int(m.get("order", 0)), name=name)
+        else:
+            ps = [None, None, None]
+            ps[int(m["axis"])] = int(m["length_cells"])
+            o = fdtdx.Cylinder(radius=float(m["radius_cells"]) * sp, axis=int(m["axis"]), materials=mats, material_name=m["material_name"],
+                               partial_grid_shape=tuple(ps), placement_order=int(m.get("order", 0)), name=name)
+        objs.append(o)
+        cons += _box_constraints(o, m["lo"], None)
         names["materials"].append(name)
 
     # ---- devices -----------------------------------------------------------------------------
